@@ -1,16 +1,15 @@
 package tokenizers
 
 import (
-	"github.com/pip-services3-gox/pip-services3-expressions-gox/io"
 	"github.com/pip-services3-gox/pip-services3-expressions-gox/tokenizers"
 	"github.com/pip-services3-gox/pip-services3-expressions-gox/tokenizers/generic"
 )
 
 type MustacheTokenizer struct {
 	*tokenizers.AbstractTokenizer
-	special      bool
-	specialState tokenizers.ITokenizerState
-	reader       io.IScanner
+	special       bool
+	specialState  tokenizers.ITokenizerState
+	readerVersion int
 }
 
 func NewMustacheTokenizer() *MustacheTokenizer {
@@ -59,9 +58,9 @@ func (c *MustacheTokenizer) ReadNextToken() *tokenizers.Token {
 	}
 
 	// Check for initial state
-	// Start in the text mode whenever a new reader was assigned
-	if c.reader != c.Scanner {
-		c.reader = c.Scanner
+	// Start in the text mode whenever a reader was assigned (also the same scanner object again)
+	if c.readerVersion != c.ReaderVersion {
+		c.readerVersion = c.ReaderVersion
 		c.special = true
 	}
 
